@@ -327,6 +327,9 @@ func hasAttribute(obj interface{}, name string) bool {
 	if !rv.IsValid() {
 		return false
 	}
+	if _, isNode := obj.(Node); isNode {
+		return false
+	}
 	// a method that can be read as an attribute takes no arguments
 	isAttrMethod := func(v reflect.Value) bool {
 		// (a nil interface value has no method to hand out)
@@ -1647,6 +1650,13 @@ func (ctx *RenderContext) getItem(container, index interface{}) (interface{}, er
 func (ctx *RenderContext) getAttribute(obj interface{}, attr string) (interface{}, error) {
 	if obj == nil {
 		// Instead of returning an error for nil objects, return nil value
+		return nil, nil
+	}
+
+	// A node of a parsed template (a macro of an imported library is reachable
+	// as m.name) is not data: its fields and methods, Release among them, are
+	// not for a template to read or call
+	if _, isNode := obj.(Node); isNode {
 		return nil, nil
 	}
 
